@@ -491,13 +491,17 @@ H_Tattach(s, q) ==
 
 CanOpen(m) == m \in {"reg", "dir", "fifo", "blk", "chr"}
 
+\* Open flags: the access mode is the low two bits; "RO+" / "WO+" carry further
+\* bits (O_TRUNC, O_APPEND, ...) that must not influence the mode checks.
+FMode(fl) == IF fl = "RO+" THEN "RO" ELSE IF fl = "WO+" THEN "WO" ELSE fl
+
 H_Tlopen(s, q) ==
   IF ~Bound(s, q.fid) THEN Fin(s, Err("EBADF")) ELSE
   LET r  == s.fidtab[q.fid]
       s1 == IncRef(s, r) IN
   IF IsDeleted(s1, r) THEN Fin(DecRef(s1, r), Err("EINVAL")) ELSE
   IF s1.ref[r].opened \/ ~CanOpen(s1.ref[r].mode) THEN Fin(DecRef(s1, r), Err("EINVAL")) ELSE
-  IF IsDirRef(s1, r) /\ q.flags # "RO" THEN Fin(DecRef(s1, r), Err("EISDIR")) ELSE
+  IF IsDirRef(s1, r) /\ FMode(q.flags) # "RO" THEN Fin(DecRef(s1, r), Err("EISDIR")) ELSE
   LET f == s1.ref[r].file
       c == BCall(Touch(s1, f), CallRec("Open", f, <<>>, 0, q.flags), "ok") IN
   IF c.res # "ok" THEN Fin(DecRef(c.s, r), Err(c.res)) ELSE
@@ -705,7 +709,7 @@ H_Tread(s, q) ==
   LET r == s.fidtab[q.fid]  x == s.ref[r] IN
   IF x.xop = "none" THEN
      H_Simple(s, q, "ReadAt",
-              IF ~x.opened THEN "EINVAL" ELSE IF x.flags = "WO" THEN "EPERM" ELSE "ok",
+              IF ~x.opened THEN "EINVAL" ELSE IF FMode(x.flags) = "WO" THEN "EPERM" ELSE "ok",
               FALSE, "Rread", "")
   ELSE IF x.xop = "walk" THEN
      IF q.n = 0 THEN Fin(s, IF x.xsize = 0 THEN Rn("Rread", 0) ELSE Err("EINVAL"))
@@ -718,7 +722,7 @@ H_Twrite(s, q) ==
   LET r == s.fidtab[q.fid]  x == s.ref[r] IN
   IF x.xop = "none" THEN
      H_Simple(s, q, "WriteAt",
-              IF ~x.opened THEN "EINVAL" ELSE IF x.flags = "RO" THEN "EPERM" ELSE "ok",
+              IF ~x.opened THEN "EINVAL" ELSE IF FMode(x.flags) = "RO" THEN "EPERM" ELSE "ok",
               FALSE, "Rwrite", "")
   ELSE IF x.xop = "create" THEN
      IF x.xbuf # q.off THEN Fin(s, Err("EINVAL"))
@@ -811,8 +815,8 @@ Requests ==
     IF "Tversion" \in Kinds THEN {Req("Tversion")} ELSE {},
     IF "Tclunk" \in Kinds THEN {[Req("Tclunk") EXCEPT !.fid = f] : f \in Fids} ELSE {},
     IF "Tremove" \in Kinds THEN {[Req("Tremove") EXCEPT !.fid = f] : f \in Fids} ELSE {},
-    IF "Tlopen" \in Kinds THEN {[Req("Tlopen") EXCEPT !.fid = f, !.flags = fl] : f \in Fids, fl \in {"RO", "WO", "RW"}} ELSE {},
-    UNION {IF k \in Kinds THEN {[Req(k) EXCEPT !.fid = f, !.name = n, !.flags = fl] : f \in Fids, n \in AllNames, fl \in {"RO", "WO"}} ELSE {} : k \in {"Tlcreate", "Tucreate"}},
+    IF "Tlopen" \in Kinds THEN {[Req("Tlopen") EXCEPT !.fid = f, !.flags = fl] : f \in Fids, fl \in {"RO", "WO", "RW", "WO+"}} ELSE {},
+    UNION {IF k \in Kinds THEN {[Req(k) EXCEPT !.fid = f, !.name = n, !.flags = fl] : f \in Fids, n \in AllNames, fl \in {"RO+", "WO", "WO+"}} ELSE {} : k \in {"Tlcreate", "Tucreate"}},
     UNION {IF k \in Kinds THEN {[Req(k) EXCEPT !.fid = f, !.name = n] : f \in Fids, n \in AllNames} ELSE {}
            : k \in {"Tmkdir", "Tumkdir", "Tsymlink", "Tusymlink", "Tmknod", "Tumknod", "Tunlinkat"}},
     IF "Tlink" \in Kinds THEN {[Req("Tlink") EXCEPT !.fid = f, !.fid2 = g, !.name = n] : f \in Fids, g \in Fids, n \in AllNames} ELSE {},
@@ -885,6 +889,14 @@ Fenced(c, q) == \E f \in FidsOfReq(q) : fidtab[c][f] # Nil /\ node[ref[fidtab[c]
 
 Paths(s) == [f \in 1..Len(s.bf) |-> s.bf[f].path]
 
+\* The path tree as seen from the server's root node (compared with a read-only
+\* snapshot of the real tree after every replayed step).
+RECURSIVE TreeSnap(_, _)
+TreeSnap(nd, n) ==
+  [ deleted |-> nd[n].deleted,
+    kids |-> [x \in {x \in Names : nd[n].kids[x] # Nil} |-> TreeSnap(nd, nd[n].kids[x])],
+    refs |-> [x \in {x \in Names : nd[n].crefs[x] # {}} |-> Cardinality(nd[n].crefs[x])] ]
+
 Serve(c, q, fl) ==
   LET out == Handle(S0(c, fl), q) IN
   /\ fl.at # 0 => out.s.fired                 \* a fault that does not strike is no new behaviour
@@ -893,7 +905,8 @@ Serve(c, q, fl) ==
   /\ UNCHANGED up
   /\ Commit(c, out, [c |-> c, req |-> q, calls |-> out.s.calls, reply |-> out.reply,
                      closes |-> out.s.closes, paths |-> Paths(out.s),
-                     ipanic |-> out.s.ipanic, okerr |-> OkErr(c, q, out.reply), fen |-> Fenced(c, q)])
+                     ipanic |-> out.s.ipanic, okerr |-> OkErr(c, q, out.reply), fen |-> Fenced(c, q),
+                     tree |-> TreeSnap(out.s.node, 1)])
 
 \* connState.stop(): drop every table reference.
 Disconnect(c) ==
@@ -908,7 +921,7 @@ Disconnect(c) ==
      /\ UNCHANGED nfault
      /\ Commit(c, out, [c |-> c, req |-> Req("Disconnect"), calls |-> out.s.calls, reply |-> out.reply,
                         closes |-> out.s.closes, paths |-> Paths(out.s), ipanic |-> FALSE,
-                        okerr |-> {}, fen |-> FALSE])
+                        okerr |-> {}, fen |-> FALSE, tree |-> TreeSnap(out.s.node, 1)])
 
 \* Probes: read-only requests evaluated on the state *after* a transition.
 \* They make the abstract state observable from outside (is the fid bound, to
@@ -923,7 +936,7 @@ ProbesOn(c) ==    \* evaluated on the primed state (used in action constraints o
          out == Handle(SX(c, [at |-> 0, kind |-> "none"], fidtab', ref', node', otype', dent', bf'), q)
      IN [c |-> c, req |-> q, calls |-> out.s.calls, reply |-> out.reply, closes |-> out.s.closes,
          paths |-> <<>>, ipanic |-> FALSE, okerr |-> IF out.reply.t = "Rlerror" THEN {out.reply.e} ELSE {},
-         fen |-> FALSE]]
+         fen |-> FALSE, tree |-> <<>>]]
 RECURSIVE ProbesFor(_)
 ProbesFor(cs) == IF cs = {} THEN <<>>
                  ELSE LET c == CHOOSE c \in cs : \A d \in cs : c <= d IN ProbesOn(c) \o ProbesFor(cs \ {c})
@@ -1016,8 +1029,8 @@ IOOnlyWhenOpenCompatible ==
     (q.t \in {"Tread", "Twrite", "Treaddir", "Tfsync"} /\ fidtab[c][q.fid] # Nil /\ ref[fidtab[c][q.fid]].xop = "none") =>
       LET x == ref[fidtab[c][q.fid]] IN
       /\ ~x.opened => (st.reply = Err("EINVAL") /\ st.calls = <<>>)
-      /\ (x.opened /\ q.t = "Tread" /\ x.flags = "WO") => (st.reply = Err("EPERM") /\ st.calls = <<>>)
-      /\ (x.opened /\ q.t = "Twrite" /\ x.flags = "RO") => (st.reply = Err("EPERM") /\ st.calls = <<>>)
+      /\ (x.opened /\ q.t = "Tread" /\ FMode(x.flags) = "WO") => (st.reply = Err("EPERM") /\ st.calls = <<>>)
+      /\ (x.opened /\ q.t = "Twrite" /\ FMode(x.flags) = "RO") => (st.reply = Err("EPERM") /\ st.calls = <<>>)
 
 DirOpsRefusedOnOpenedDir ==
   log' # log =>
@@ -1030,7 +1043,7 @@ DirOpsRefusedOnOpenedDir ==
     /\ (q.t \in {"Twalk", "Twalkgetattr"} /\ fidtab[c][q.fid] # Nil /\ ref[fidtab[c][q.fid]].opened /\ q.fid = q.newfid)
          => (st.reply = Err("EBUSY") /\ st.calls = <<>>)
     /\ (q.t = "Tlopen" /\ fidtab[c][q.fid] # Nil /\ ~node[ref[fidtab[c][q.fid]].node].deleted
-        /\ ~ref[fidtab[c][q.fid]].opened /\ ref[fidtab[c][q.fid]].mode = "dir" /\ q.flags # "RO")
+        /\ ~ref[fidtab[c][q.fid]].opened /\ ref[fidtab[c][q.fid]].mode = "dir" /\ FMode(q.flags) # "RO")
          => (st.reply = Err("EISDIR") /\ st.calls = <<>>)
 
 NoAuth ==
